@@ -256,8 +256,10 @@ def run_all(d, case, gaf_kind, gfa_kind):
                                             fname=os.path.basename(gfa), sub="ord%d" % by, reuse_existing=True)
             norm = {}
             for fn, content in files.items():
-                key = fn.rsplit("-", 1)[-1]
-                norm[key] = content
+                # the documented outputs, <name>-<chromosome>.gfa/.csv; the <name> part derives from the input file name and other
+                # files a run may leave next to them (summaries, logs) are not results of the property
+                if "-" in fn and fn.endswith((".gfa", ".csv")):
+                    norm[fn.rsplit("-", 1)[-1]] = content
             put("order_gfa by_chrom=%s" % by, res, norm)
     return out, table
 
